@@ -369,7 +369,9 @@ def run_cases(spec, vh, seed, n, tier, workdir, with_coq=True, extra_env=None):
     """Run the implementation on generated cases, then the model inside coqc. Returns dict."""
     shutil.rmtree(workdir, ignore_errors=True)
     os.makedirs(workdir)
-    nshards = 16 if n >= 64 else 1
+    # 16 shards (one per core) for ordinary runs; large thorough runs get more, smaller shards (at most ~3000 cases
+    # each: coqc parses big literal lists slowly and can run out of stack), still evaluated 16 at a time
+    nshards = 1 if n < 64 else max(16, (n + 2999) // 3000)
     t0 = time.time()
     rc, out = run([vh, spec["id"], "cases", "--seed", str(seed), "--n", str(n), "--out", workdir,
                    "--shards", str(nshards), "--tier", tier], timeout=spec.get("cases_timeout", 1800), env=extra_env)
